@@ -129,7 +129,9 @@ def _run(ctx):
                "before the first run; plus probes with the updater parked inside the history write lock; non-trivial = request "
                "issued while an update is in progress",
         "C16": "conditional requests (ETag, Last-Modified as issued by earlier 200 responses; etag only / date only / both) at every "
-               "point of the update sequence; oracle: 304 only if the validators' version is the one served; non-trivial = the "
+               "point of the update sequence; plus bursts of five data-changing runs started at a second boundary (three or more "
+               "complete within one second, Last-Modified runs ahead of the clock) with the validators of every earlier data set "
+               "presented after each run; oracle: 304 only if the validators' version is the one served; non-trivial = the "
                "client's version is outdated or an update is in progress",
         "C17": "a /json-delta/notify long-poll presenting an earlier version is parked after subscribe / after the version check "
                "while the updater runs; oracle: once the served version differs and the updater is idle the request returns "
